@@ -135,8 +135,9 @@ Fixpoint remove_first (x : str) (l : list str) : option (list str) :=
   end.
 
 (* remove_remote(name_id): KeyError when the text is unknown (state untouched);
-   ValueError (not caught: only KeyError is) when the code is not in the user's list *)
-Definition do_remove_remote (d : db) (n : nameid) : result db :=
+   ValueError (not caught: only KeyError is) when the code is not in the user's list.
+   [rewrite id vals d] is what happens to the user's entry once the code is taken out. *)
+Definition remove_remote_with (rewrite : str -> list str -> db -> db) (d : db) (n : nameid) : result db :=
   match n_text n with
   | None => Err KeyError
   | Some t =>
@@ -148,10 +149,36 @@ Definition do_remove_remote (d : db) (n : nameid) : result db :=
           | Some e =>
               match remove_first (code n) (entries_of e) with
               | None => Err ValueError
-              | Some vals => Ok (remove t (insert id (join_with SPACE vals) d))
+              | Some vals => Ok (remove t (rewrite id vals d))
               end
           end
       end
+  end.
+(* the code as it is (after fix C18-1): "if vals: db[_id] = join(vals) else: del db[_id]".
+   (del db[_id] followed by del db[text] could only raise when _id = text, i.e. when the entry
+   read under the text is the one-element list [code n]: impossible, code n is longer than its text.) *)
+Definition rewrite_entry (id : str) (vals : list str) (d : db) : db :=
+  match vals with [] => remove id d | _ :: _ => insert id (join_with SPACE vals) d end.
+Definition do_remove_remote : db -> nameid -> result db := remove_remote_with rewrite_entry.
+(* before fix C18-1: db[_id] = join(vals) always; the last removal leaves the empty string,
+   which every reader splits into ONE empty code *)
+Definition rewrite_entry_before_fix (id : str) (vals : list str) (d : db) : db := insert id (join_with SPACE vals) d.
+Definition do_remove_remote_before_fix : db -> nameid -> result db := remove_remote_with rewrite_entry_before_fix.
+
+(* remove_local(sid) (after fix C18-2; on Python 3 the id is used as it is):
+     try: for val in db[sid].split(" "): try: del db[decode(val).text] except KeyError: pass
+          del db[sid]
+     except KeyError: pass
+   decode may raise ValueError in the middle of the loop: the deletions done so far stay.
+   A decoded identifier without text is the key None: KeyError in a dict (swallowed); shelve
+   raises AttributeError instead: outside the model, not reachable through the operations. *)
+Fixpoint remove_local_vals (vals : list str) (d : db) : db * option str :=
+  match vals with
+  | [] => (d, None)
+  | v :: r => match decode v with
+              | Err e => (d, Some e)
+              | Ok nid => remove_local_vals r (match n_text nid with Some t => remove t d | None => d end)
+              end
   end.
 
 (* create_id: draw digests until one is not a key.  The digest / random source is the
@@ -169,6 +196,15 @@ Inductive out :=
 | OStr (s : str)
 | ONids (l : list nameid)
 | OErr (e : str).
+
+Definition do_remove_local (d : db) (u : str) : db * out :=
+  match lookup u d with
+  | None => (d, ONone)
+  | Some e => match remove_local_vals (entries_of e) d with
+              | (d1, Some er) => (d1, OErr er)
+              | (d1, None) => (remove u d1, ONone)
+              end
+  end.
 
 Definition get_nameid (c : cfg) (d : db) (u fmt : str) (sp nq : option str) (cands : list str) : db * out :=
   match create_id d cands with
@@ -279,9 +315,9 @@ Definition map_req (c : cfg) (d : db) (n : nameid) (pfmt psp allow : option str)
 
 Inductive action := ANew (sp_provided : option str) | AEncrypted | ATerminate | ANoop.
 (* handle_manage_name_id_request(name_id, new_id, new_encrypted_id, terminate) *)
-Definition manage (d : db) (n : nameid) (a : action) : db * out :=
+Definition manage_with (rr : db -> nameid -> result db) (d : db) (n : nameid) (a : action) : db * out :=
   let go (n' : nameid) :=
-    match do_remove_remote d n with
+    match rr d n with
     | Err e => (d, OErr e)
     | Ok d1 => match find_local_id d n with
                | None => (d, OErr KeyError)        (* not reachable: remove_remote raised *)
@@ -294,6 +330,8 @@ Definition manage (d : db) (n : nameid) (a : action) : db * out :=
   | ATerminate => go (set_field 3 None n)
   | ANoop => (d, ONid n)
   end.
+Definition manage : db -> nameid -> action -> db * out := manage_with do_remove_remote.
+Definition manage_before_fix : db -> nameid -> action -> db * out := manage_with do_remove_remote_before_fix.
 
 Inductive op :=
 | Store (u : str) (n : nameid)
@@ -316,7 +354,7 @@ Definition step (c : cfg) (d : db) (o : op) : db * out :=
   match o with
   | Store u n => match do_store d u n with Ok d' => (d', ONone) | Err e => (d, OErr e) end
   | RemoveRemote n => match do_remove_remote d n with Ok d' => (d', ONone) | Err e => (d, OErr e) end
-  | RemoveLocal _ => (d, OErr (s2l "NameError"))          (* isinstance(sid, unicode) on Python 3 *)
+  | RemoveLocal u => do_remove_local d u
   | GetNameid u fmt sp nq cands => get_nameid c d u fmt sp nq cands
   | Transient u sp nq cands => get_nameid c d u NAMEID_FORMAT_TRANSIENT sp nq cands
   | Persistent u sp nq cands => persistent_nameid c d u sp nq cands
@@ -333,6 +371,19 @@ Fixpoint run (c : cfg) (d : db) (ops : list op) : db :=
 Fixpoint run_outs (c : cfg) (d : db) (ops : list op) : list out :=
   match ops with [] => [] | o :: r => let '(d', x) := step c d o in x :: run_outs c d' r end.
 
+(* ---------------- the code BEFORE fixes C18-1 / C18-2 (kept for the refutation witnesses) ---------------- *)
+Definition step_before_fix (c : cfg) (d : db) (o : op) : db * out :=
+  match o with
+  | RemoveRemote n => match do_remove_remote_before_fix d n with Ok d' => (d', ONone) | Err e => (d, OErr e) end
+  | RemoveLocal _ => (d, OErr (s2l "NameError"))          (* isinstance(sid, unicode) on Python 3 *)
+  | Manage n a => manage_before_fix d n a
+  | _ => step c d o
+  end.
+Fixpoint run_before_fix (c : cfg) (d : db) (ops : list op) : db :=
+  match ops with [] => d | o :: r => run_before_fix c (fst (step_before_fix c d o)) r end.
+Fixpoint run_outs_before_fix (c : cfg) (d : db) (ops : list op) : list out :=
+  match ops with [] => [] | o :: r => let '(d', x) := step_before_fix c d o in x :: run_outs_before_fix c d' r end.
+
 (* ---------------- observables ---------------- *)
 Definition show_ostr (o : option str) : val := show_option VS o.
 Definition show_nid (n : nameid) : val :=
@@ -347,3 +398,4 @@ Definition show_out (o : out) : val :=
   end.
 Definition show_decode (s : str) : val := show_result show_nid (decode s).
 Definition show_history (x : cfg * list op) : val := VL (map show_out (run_outs (fst x) [] (snd x))).
+Definition show_history_before_fix (x : cfg * list op) : val := VL (map show_out (run_outs_before_fix (fst x) [] (snd x))).
